@@ -30,6 +30,7 @@ from hpstatic.terms import (sym, intern, show, subterms, calls_in, NONE, num, kw
                             FALSE, TRUE)
 from hpstatic.xrnorm import atom_rewrite
 from . import c01
+from .common import const_list
 
 MUTATION_TARGETS = {'holopy/core/io/io.py': ['pack_attrs', 'unpack_attrs', 'push', 'mean', 'std', 'load_average', 'save'], 'holopy/core/metadata.py': ['update_metadata', 'make_coords', 'data_grid', 'to_vector'], 'holopy/core/utils.py': ['updated']}
 
@@ -99,7 +100,7 @@ def metadata_edit(check, prog):
     fd = prog.func(q)
     it = Interp(prog, max_depth=1)
     res = it.analyze(q)
-    st = [e for e in it.effects if e['kind'] == 'setitem' and e['target_src'] == 'd[key]']
+    st = [e for e in it.effects if e['kind'] == 'setitem']
     ok = len(st) == 1
     if ok:
         val = st[0]['value']
@@ -149,10 +150,18 @@ def attrs_tables(check, prog):
                                            'holopy.core.utils.ensure_array'])
     res = it.analyze(q)
     stores = [e for e in it.effects if e['kind'] == 'setitem']
-    plain = [e for e in stores if e['target_src'] == 'new_attrs[attr]' and
-             calls_in(e['value'], 'yaml.dump')]
-    arrays = [e for e in stores if e['target_src'] == 'new_attrs[attr]' and
-              not calls_in(e['value'], 'yaml.dump')]
+    def level(b):
+        # nesting depth of the container a store goes into: 0 = the packed
+        # mapping itself, 1 = its coordinate table, 2 = one attribute's entry
+        return 1 + level(b[1]) if b[0] == 'idx' else 0
+
+    def in_coords(b):
+        while b[0] == 'idx' and b[1][0] == 'idx':
+            b = b[1]
+        return b[0] == 'idx' and b[2] == ('const', '_attr_coords')
+    top = [e for e in stores if level(e['base']) == 0 and e['key'][0] != 'const']
+    plain = [e for e in top if calls_in(e['value'], 'yaml.dump')]
+    arrays = [e for e in top if not calls_in(e['value'], 'yaml.dump')]
     check.floor('plain-attribute stores in pack_attrs', len(plain), 1)
     for e in plain:
         dumped = calls_in(e['value'], 'yaml.dump')[0][2][0]
@@ -180,14 +189,14 @@ def attrs_tables(check, prog):
                       'such as noise_sd = 0 or a channel index 0 is dropped on save' % (
                           verdict,))
     # coordinate table
-    ref = [e for e in stores if e['target_src'] == 'new_attrs[attr_coords][attr]']
+    ref = [e for e in stores if level(e['base']) == 1 and in_coords(e['base'])]
     vals = {show(e['value']) for e in ref}
     ok = any(e['value'] == FALSE for e in ref) and any(e['value'] == ('dict', ())
                                                        for e in ref)
     check.require(ok, 'U2-coordinate-table', 'pack_attrs',
                   'attr_coords[attr] is False for plain values and a {dim: values} '
                   'table for labelled arrays', loc, fail_detail='stores %s' % sorted(vals))
-    dimst = [e for e in stores if e['target_src'] == 'new_attrs[attr_coords][attr][str(dim)]']
+    dimst = [e for e in stores if level(e['base']) == 2 and in_coords(e['base'])]
     ok = len(dimst) == 1 and dimst[0]['value'][0] == 'attr' and dimst[0]['value'][2] == 'values'
     check.require(ok, 'U2-coordinate-table', 'pack_attrs dims',
                   'each dimension of a labelled attribute is stored with its '
@@ -198,7 +207,7 @@ def attrs_tables(check, prog):
     side_written = set()
     for e in stores:
         k = e['key']
-        if e['target_src'].startswith('new_attrs[') and k[0] == 'const':
+        if level(e['base']) == 0 and k[0] == 'const':
             side_written.add(k[1])
     # unpacker
     q2 = IO + 'unpack_attrs'
@@ -207,15 +216,14 @@ def attrs_tables(check, prog):
     it2 = Interp(prog, max_depth=1, opaque=['holopy.core.utils.dict_without'])
     res2 = it2.analyze(q2)
     ign = None
-    for n in ast.walk(fd2):
-        if isinstance(n, ast.Assign) and isinstance(n.targets[0], ast.Name) and \
-                n.targets[0].id == 'attrs_to_ignore' and isinstance(n.value, ast.List):
-            ign = [x.value for x in n.value.elts if isinstance(x, ast.Constant)]
+    dw = [c for c in it2.calls if c['name'] == 'holopy.core.utils.dict_without']
+    if len(dw) == 1 and len(dw[0]['args']) == 2:
+        ign = const_list(dw[0]['args'][1])
     check.require(ign is not None, 'U2-reader-table', 'unpack_attrs ignore list',
                   'literal list of side-channel keys', loc2)
     ign = ign or []
     st2 = [e for e in it2.effects if e['kind'] == 'setitem' and
-           e['target_src'] == 'new_attrs[attr]']
+           level(e['base']) == 0 and e['key'][0] != 'const']
     kinds = set()
     for e in st2:
         v = e['value']
